@@ -1,11 +1,14 @@
 package main
 
 import (
+	"bytes"
 	"fmt"
 	"math/rand"
 	"sort"
 	"strings"
 	"time"
+
+	authtypes "github.com/cosmos/cosmos-sdk/x/auth/types"
 
 	sdk "github.com/cosmos/cosmos-sdk/types"
 	"github.com/cosmos/cosmos-sdk/types/query"
@@ -15,53 +18,115 @@ import (
 
 	nftkeeper "mods.irisnet.org/modules/nft/keeper"
 	nfttypes "mods.irisnet.org/modules/nft/types"
+	"mods.irisnet.org/simapp"
 )
 
 func main() { drv.Main("nft", nftDriver) }
 
 // Model <-> chain mapping for NFT.tla:
 //
-//	accounts   "u1".."uN" (deterministic keys); owners outside the universe are logged as bech32
-//	class ids, token ids: identical strings in model and chain
-//	metadata   name / uri / uri hash: the abstract string itself; "keep" <-> "[do-not-modify]"
-//	           data: abstract v <-> JSON string literal "v" ("" <-> "")
+//	accounts   "u1".."uN" (deterministic keys, the signers); "mod": the fee collector's module
+//	           address - tracked like a user, can be named as recipient, cannot sign (a message
+//	           naming it as sender is delivered in a transaction signed by the spare account
+//	           "sx", which the ante handler refuses); other owners are logged as bech32
+//	class ids, token ids: identical strings in model and chain, except the abstract names
+//	           "L101" / "L102" (an id of 101 / 102 letters) and "SENT" (the do-not-modify
+//	           sentinel used as an id)
+//	metadata   name / uri / uri hash: the abstract string itself; "keep" <-> "[do-not-modify]";
+//	           uri "u256" / "u257" <-> a uri of 256 / 257 characters
+//	           data: abstract v <-> JSON string literal "v" ("" <-> ""); "badjson" <-> text that
+//	           is not JSON
 //	class meta abstract v <-> name "n"+v, schema "s"+v, symbol "y"+v, description "d"+v,
 //	           uri "u"+v, uri hash "h"+v, data "\"v\"" (all seven class fields)
 //
-// The projected state is what the module's own query endpoints report
-// (Denom, NFT, NFTsOfOwner, Supply(class), Supply(class, owner), Collection)
-// over a closed universe of class ids x token ids x accounts.
+// The projected state is what the module's own query endpoints report (Denom, NFT,
+// NFTsOfOwner and Collection page by page, Supply(class), Supply(class, owner)) over the
+// classes and tokens the RAW STORE holds plus a closed universe of class ids x token ids,
+// for the tracked accounts; next to it the raw store itself (class keys, token records,
+// owner keys, owner index of every address, supply counters) and two more read paths
+// (Denoms page by page, NFTsOfOwner class by class).
 type nftEnv struct {
 	c       *chain.Chain
-	users   []string
+	users   []string          // signers
+	tracked []string          // users + "mod"
 	names   map[string]string // bech32 -> account name
-	classes []string          // class-id universe
-	ids     []string          // token-id universe
+	addrs   map[string]string // account name -> bech32 (accounts that cannot sign)
+	classes []string          // class-id universe (abstract)
+	ids     []string          // token-id universe (abstract)
 	last    chain.M
 }
 
-const keep = "keep"
+const (
+	keep    = "keep"
+	modAcct = "mod"
+	spare   = "sx"
+	preCls  = "ibc/abc"
+)
+
+var (
+	long101 = strings.Repeat("a", 101)
+	long102 = strings.Repeat("a", 102)
+	uri256  = strings.Repeat("u", 256)
+	uri257  = strings.Repeat("u", 257)
+)
+
+// encID / decID: abstract id <-> real id.
+func encID(v string) string {
+	switch v {
+	case "L101":
+		return long101
+	case "L102":
+		return long102
+	case "SENT":
+		return nfttypes.DoNotModify
+	}
+	return v
+}
+
+func decID(v string) string {
+	switch v {
+	case long101:
+		return "L101"
+	case long102:
+		return "L102"
+	case nfttypes.DoNotModify:
+		return "SENT"
+	}
+	return v
+}
 
 func encField(v string) string {
-	if v == keep {
+	switch v {
+	case keep:
 		return nfttypes.DoNotModify
+	case "u256":
+		return uri256
+	case "u257":
+		return uri257
 	}
 	return v
 }
 
 func decField(v string) string {
-	if v == nfttypes.DoNotModify {
+	switch v {
+	case nfttypes.DoNotModify:
 		return keep
+	case uri256:
+		return "u256"
+	case uri257:
+		return "u257"
 	}
 	return v
 }
 
 func encData(v string) string {
-	if v == keep {
+	switch v {
+	case keep:
 		return nfttypes.DoNotModify
-	}
-	if v == "" {
+	case "":
 		return ""
+	case "badjson":
+		return `{"bad`
 	}
 	return `"` + v + `"`
 }
@@ -92,21 +157,41 @@ func usersIn(beh []chain.M, fields ...string) int {
 }
 
 func newNftEnv(fl *drv.Flags, classes, ids []string, minUsers int) *nftEnv {
-	e := &nftEnv{names: map[string]string{}}
+	e := &nftEnv{names: map[string]string{}, addrs: map[string]string{}}
 	n := int(fl.CfgInt("users", 3))
 	if minUsers > n {
 		n = minUsers
 	}
-	accts := map[string]string{}
+	accts := map[string]string{spare: "1000stake"}
 	for i := 1; i <= n; i++ {
 		u := fmt.Sprintf("u%d", i)
 		e.users = append(e.users, u)
 		accts[u] = "1000stake"
 	}
-	e.c = chain.New(chain.Options{Accounts: accts})
+	e.tracked = append(append([]string{}, e.users...), modAcct)
+	e.addrs[modAcct] = chain.ModuleAddr(authtypes.FeeCollectorName).String()
+	opts := chain.Options{Accounts: accts}
+	if fl.CfgInt("pre", 0) != 0 {
+		// an IBC-style class cannot be issued by message; it is put into the genesis state
+		// (NFT.tla InitPre): class "ibc/abc" of u2, no restrictions, token "tka" of u1
+		opts.MutateGenesis = func(c *chain.Chain, gs simapp.GenesisState) {
+			cdc := c.App.AppCodec()
+			var g nfttypes.GenesisState
+			cdc.MustUnmarshalJSON(gs[nfttypes.ModuleName], &g)
+			g.Collections = append(g.Collections, nfttypes.Collection{
+				Denom: nfttypes.Denom{Id: preCls, Name: "nm", Schema: "sm", Symbol: "ym", Description: "dm", Uri: "um",
+					UriHash: "hm", Data: `"m"`, Creator: chain.AddrOf("u2").String()},
+				NFTs: []nfttypes.BaseNFT{{Id: "tka", Name: "a", URI: "x", Owner: chain.AddrOf("u1").String()}},
+			})
+			gs[nfttypes.ModuleName] = cdc.MustMarshalJSON(&g)
+		}
+		classes = append(classes, preCls)
+	}
+	e.c = chain.New(opts)
 	for _, u := range e.users {
 		e.names[e.c.Accts[u].Addr.String()] = u
 	}
+	e.names[e.addrs[modAcct]] = modAcct
 	e.classes = uniq(append(strings.Split(fl.CfgStr("classes", "cla+clb"), "+"), classes...))
 	e.ids = uniq(append(strings.Split(fl.CfgStr("ids", "tka+tkb"), "+"), ids...))
 	e.c.Project = func(ctx sdk.Context) any { return e.project(ctx) }
@@ -134,23 +219,144 @@ func (e *nftEnv) nameOf(bech string) string {
 }
 
 func (e *nftEnv) addr(name string) string {
-	if a, ok := e.c.Accts[name]; ok {
+	if a, ok := e.addrs[name]; ok {
+		return a
+	}
+	if a, ok := e.c.Accts[name]; ok && name != spare {
 		return a.Addr.String()
 	}
 	return name
+}
+
+func (e *nftEnv) canSign(name string) bool {
+	for _, u := range e.users {
+		if u == name {
+			return true
+		}
+	}
+	return false
 }
 
 func tokenRec(owner, name, uri, hash, data string) chain.M {
 	return chain.M{"owner": owner, "n": decField(name), "u": decField(uri), "h": decField(hash), "d": decData(data)}
 }
 
-// project reads the abstract state of NFT.tla through the module's queries.
+// rawStore is the content of the nft store, read key by key (x/nft keeper/keys.go).
+type rawStore struct {
+	cls []string                       // 0x01 <class>
+	tok map[string]map[string]bool     // 0x02 <class> 0x00 <id>
+	own map[string]map[string]string   // 0x04 <class> 0x00 <id> -> owner (account name or bech32)
+	idx map[string]map[string][]string // 0x03 <len><owner> 0x00 <class> 0x00 <id>
+	sup map[string]int64               // 0x05 <class>
+}
+
+func (e *nftEnv) scan(ctx sdk.Context) *rawStore {
+	r := &rawStore{tok: map[string]map[string]bool{}, own: map[string]map[string]string{},
+		idx: map[string]map[string][]string{}, sup: map[string]int64{}}
+	key := e.c.App.UnsafeFindStoreKey(nfttypes.StoreKey)
+	it := ctx.KVStore(key).Iterator(nil, nil)
+	defer it.Close()
+	split := func(b []byte) (string, string, bool) {
+		p := bytes.IndexByte(b, 0)
+		if p < 0 {
+			return "", "", false
+		}
+		return decID(string(b[:p])), decID(string(b[p+1:])), true
+	}
+	for ; it.Valid(); it.Next() {
+		k, v := it.Key(), it.Value()
+		if len(k) < 2 {
+			continue
+		}
+		switch k[0] {
+		case 0x01:
+			r.cls = append(r.cls, decID(string(k[1:])))
+		case 0x02:
+			if c, id, ok := split(k[1:]); ok {
+				if r.tok[c] == nil {
+					r.tok[c] = map[string]bool{}
+				}
+				r.tok[c][id] = true
+			}
+		case 0x03:
+			l := int(k[1])
+			if len(k) < 3+l {
+				continue
+			}
+			a := e.nameOf(sdk.AccAddress(k[2 : 2+l]).String())
+			if c, id, ok := split(k[3+l:]); ok {
+				if r.idx[a] == nil {
+					r.idx[a] = map[string][]string{}
+				}
+				r.idx[a][c] = append(r.idx[a][c], id)
+			}
+		case 0x04:
+			if c, id, ok := split(k[1:]); ok {
+				if r.own[c] == nil {
+					r.own[c] = map[string]string{}
+				}
+				r.own[c][id] = e.nameOf(sdk.AccAddress(v).String())
+			}
+		case 0x05:
+			n := sdk.BigEndianToUint64(v)
+			if n > 1<<30 {
+				n = 1 << 30 // a counter that wrapped below zero: out of any plausible range
+			}
+			r.sup[decID(string(k[1:]))] = int64(n)
+		}
+	}
+	return r
+}
+
+func (r *rawStore) json() chain.M {
+	cls := []any{}
+	for _, c := range r.cls {
+		cls = append(cls, c)
+	}
+	tok, own := chain.M{}, chain.M{}
+	for c, m := range r.tok {
+		tm := chain.M{}
+		for id := range m {
+			tm[id] = r.own[c][id] // "" when there is no owner key
+		}
+		tok[c] = tm
+	}
+	for c, m := range r.own {
+		l := []any{}
+		for _, id := range chain.SortedKeys(m) {
+			l = append(l, id)
+		}
+		own[c] = l
+	}
+	idx := chain.M{}
+	for a, m := range r.idx {
+		row := chain.M{}
+		for c, ids := range m {
+			l := []any{}
+			for _, id := range ids {
+				l = append(l, id)
+			}
+			row[c] = l
+		}
+		idx[a] = row
+	}
+	sup := chain.M{}
+	for c, n := range r.sup {
+		sup[c] = n
+	}
+	return chain.M{"cls": cls, "tok": tok, "own": own, "idx": idx, "sup": sup}
+}
+
+const maxPages = 300 // a pagination that never ends is cut off (and shows as a wrong listing)
+
+// project reads the abstract state of NFT.tla through the module's queries and the raw store.
 func (e *nftEnv) project(ctx sdk.Context) any {
 	k := e.c.K.NFT
+	raw := e.scan(ctx)
 	cls, nfts, sup, coll := chain.M{}, chain.M{}, chain.M{}, chain.M{}
 	var existing []string
-	for _, c := range e.classes {
-		dr, err := k.Denom(ctx, &nfttypes.QueryDenomRequest{DenomId: c})
+	for _, c := range uniq(append(append([]string{}, e.classes...), raw.cls...)) {
+		dr, err := k.Denom(ctx, &nfttypes.QueryDenomRequest{DenomId: encID(c)})
 		if err != nil || dr.Denom == nil {
 			continue
 		}
@@ -159,8 +365,12 @@ func (e *nftEnv) project(ctx sdk.Context) any {
 		cls[c] = chain.M{"creator": e.nameOf(d.Creator), "mintR": d.MintRestricted, "updateR": d.UpdateRestricted,
 			"meta": decClassMeta(d)}
 		toks := chain.M{}
-		for _, id := range e.ids {
-			nr, err := k.NFT(ctx, &nfttypes.QueryNFTRequest{DenomId: c, TokenId: id})
+		ids := append([]string{}, e.ids...)
+		for id := range raw.tok[c] {
+			ids = append(ids, id)
+		}
+		for _, id := range uniq(ids) {
+			nr, err := k.NFT(ctx, &nfttypes.QueryNFTRequest{DenomId: encID(c), TokenId: encID(id)})
 			if err != nil || nr.NFT == nil {
 				continue
 			}
@@ -168,63 +378,107 @@ func (e *nftEnv) project(ctx sdk.Context) any {
 			toks[id] = tokenRec(e.nameOf(t.Owner), t.Name, t.URI, t.UriHash, t.Data)
 		}
 		nfts[c] = toks
-		sr, err := k.Supply(ctx, &nfttypes.QuerySupplyRequest{DenomId: c})
-		if err != nil {
-			panic(err)
+		// a query that fails (possible on a broken tree) marks the observation instead of
+		// ending the run: the clauses judge the marked state
+		if sr, err := k.Supply(ctx, &nfttypes.QuerySupplyRequest{DenomId: encID(c)}); err == nil {
+			sup[c] = small(sr.Amount)
+		} else {
+			sup[c] = int64(1 << 30)
 		}
-		sup[c] = int64(sr.Amount)
-		// Collection query, all pages
+		// Collection query, page by page (two tokens a page)
 		cm := chain.M{}
 		var key []byte
-		for {
-			cr, err := k.Collection(ctx, &nfttypes.QueryCollectionRequest{DenomId: c, Pagination: &query.PageRequest{Key: key}})
-			if err != nil {
-				panic(err)
+		for page := 0; ; page++ {
+			cr, err := k.Collection(ctx, &nfttypes.QueryCollectionRequest{DenomId: encID(c), Pagination: &query.PageRequest{Key: key, Limit: 2}})
+			if err != nil || cr.Collection == nil {
+				cm["?error"] = tokenRec("", "", "", "", "")
+				break
 			}
 			for _, t := range cr.Collection.NFTs {
-				cm[t.Id] = tokenRec(e.nameOf(t.Owner), t.Name, t.URI, t.UriHash, t.Data)
+				if _, dup := cm[decID(t.Id)]; dup {
+					cm["?dup:"+decID(t.Id)] = tokenRec("", "", "", "", "")
+				}
+				cm[decID(t.Id)] = tokenRec(e.nameOf(t.Owner), t.Name, t.URI, t.UriHash, t.Data)
 			}
 			if cr.Pagination == nil || len(cr.Pagination.NextKey) == 0 {
+				break
+			}
+			if page > maxPages {
+				cm["?endless"] = tokenRec("", "", "", "", "")
 				break
 			}
 			key = cr.Pagination.NextKey
 		}
 		coll[c] = cm
 	}
-	idx, bal := chain.M{}, chain.M{}
-	for _, u := range e.users {
+	idx, bal, idxc := chain.M{}, chain.M{}, chain.M{}
+	for _, u := range e.tracked {
 		per := map[string][]any{}
 		for _, c := range existing {
 			per[c] = []any{}
 		}
 		var key []byte
-		for {
-			or, err := k.NFTsOfOwner(ctx, &nfttypes.QueryNFTsOfOwnerRequest{Owner: e.addr(u), Pagination: &query.PageRequest{Key: key}})
-			if err != nil {
-				panic(err)
+		for page := 0; ; page++ {
+			or, err := k.NFTsOfOwner(ctx, &nfttypes.QueryNFTsOfOwnerRequest{Owner: e.addr(u), Pagination: &query.PageRequest{Key: key, Limit: 2}})
+			if err != nil || or.Owner == nil {
+				per["?error"] = []any{}
+				break
 			}
 			for _, ic := range or.Owner.IDCollections {
 				for _, id := range ic.TokenIds {
-					per[ic.DenomId] = append(per[ic.DenomId], id)
+					per[decID(ic.DenomId)] = append(per[decID(ic.DenomId)], decID(id))
 				}
 			}
-			if or.Pagination == nil || len(or.Pagination.NextKey) == 0 {
+			if or.Pagination == nil || len(or.Pagination.NextKey) == 0 || page > maxPages {
 				break
 			}
 			key = or.Pagination.NextKey
 		}
-		row, brow := chain.M{}, chain.M{}
+		row, brow, crow := chain.M{}, chain.M{}, chain.M{}
 		for c, l := range per {
 			row[c] = l
 		}
 		for _, c := range existing {
-			sr, err := k.Supply(ctx, &nfttypes.QuerySupplyRequest{DenomId: c, Owner: e.addr(u)})
-			if err != nil {
-				panic(err)
+			if sr, err := k.Supply(ctx, &nfttypes.QuerySupplyRequest{DenomId: encID(c), Owner: e.addr(u)}); err == nil {
+				brow[c] = small(sr.Amount)
+			} else {
+				brow[c] = int64(1 << 30)
 			}
-			brow[c] = int64(sr.Amount)
+			// the owner index of one class, default page size
+			l := []any{}
+			or, err := k.NFTsOfOwner(ctx, &nfttypes.QueryNFTsOfOwnerRequest{Owner: e.addr(u), DenomId: encID(c)})
+			if err != nil || or.Owner == nil {
+				crow[c] = []any{"?error"}
+				continue
+			}
+			for _, ic := range or.Owner.IDCollections {
+				for _, id := range ic.TokenIds {
+					if decID(ic.DenomId) != c {
+						id = ic.DenomId + "|" + id
+					}
+					l = append(l, decID(id))
+				}
+			}
+			crow[c] = l
 		}
-		idx[u], bal[u] = row, brow
+		idx[u], bal[u], idxc[u] = row, brow, crow
+	}
+	// the class list, page by page (two classes a page)
+	denoms := []any{}
+	var key []byte
+	for page := 0; ; page++ {
+		r, err := k.Denoms(ctx, &nfttypes.QueryDenomsRequest{Pagination: &query.PageRequest{Key: key, Limit: 2}})
+		if err != nil {
+			denoms = append(denoms, "?error")
+			break
+		}
+		for _, d := range r.Denoms {
+			denoms = append(denoms, decID(d.Id))
+		}
+		if r.Pagination == nil || len(r.Pagination.NextKey) == 0 || page > maxPages {
+			break
+		}
+		key = r.Pagination.NextKey
 	}
 	broken := false
 	func() {
@@ -235,7 +489,25 @@ func (e *nftEnv) project(ctx sdk.Context) any {
 		}()
 		_, broken = nftkeeper.SupplyInvariant(k)(ctx)
 	}()
-	return chain.M{"cls": cls, "nft": nfts, "sup": sup, "coll": coll, "idx": idx, "bal": bal, "invBroken": broken}
+	// would the module accept its own export? (InitGenesis panics when ValidateGenesis refuses it)
+	exportBroken := false
+	func() {
+		defer func() {
+			if r := recover(); r != nil {
+				exportBroken = true
+			}
+		}()
+		exportBroken = nfttypes.ValidateGenesis(*k.ExportGenesis(ctx)) != nil
+	}()
+	return chain.M{"cls": cls, "nft": nfts, "sup": sup, "coll": coll, "idx": idx, "bal": bal, "invBroken": broken,
+		"exportBroken": exportBroken, "raw": raw.json(), "q": chain.M{"denoms": denoms, "idxc": idxc}}
+}
+
+func small(n uint64) int64 {
+	if n > 1<<30 {
+		return 1 << 30
+	}
+	return int64(n)
 }
 
 func decClassMeta(d *nfttypes.Denom) string {
@@ -269,7 +541,7 @@ func (e *nftEnv) norm(ev chain.M) chain.M {
 // msgOf maps an abstract event to a real message; nil for non-message events.
 func (e *nftEnv) msgOf(ev chain.M) sdk.Msg {
 	who, to := e.addr(chain.Str(ev, "who")), e.addr(chain.Str(ev, "to"))
-	c, id := chain.Str(ev, "cls"), chain.Str(ev, "id")
+	c, id := encID(chain.Str(ev, "cls")), encID(chain.Str(ev, "id"))
 	n, u, h, d := encField(chain.Str(ev, "n")), encField(chain.Str(ev, "u")), encField(chain.Str(ev, "h")), encData(chain.Str(ev, "d"))
 	switch chain.Str(ev, "name") {
 	case "IssueDenom":
@@ -297,10 +569,13 @@ func (e *nftEnv) runBlock(pending []chain.M, w *chain.TraceWriter) bool {
 	var txs []chain.Tx
 	for _, ev := range pending {
 		who := chain.Str(ev, "who")
-		if _, ok := e.c.Accts[who]; !ok {
-			who = e.users[0]
+		tx := chain.Tx{Signer: who, Msgs: []sdk.Msg{e.msgOf(ev)}}
+		if !e.canSign(who) {
+			// nobody holds a key of this sender: the transaction is signed by the spare account
+			// and the ante handler refuses it (kept out of bundles: it must fail alone)
+			tx.Signer, tx.NoBundle = spare, true
 		}
-		txs = append(txs, chain.Tx{Signer: who, Msgs: []sdk.Msg{e.msgOf(ev)}})
+		txs = append(txs, tx)
 	}
 	res := e.c.RunBlock(5*time.Second, txs)
 	if res.Halt {
@@ -312,7 +587,7 @@ func (e *nftEnv) runBlock(pending []chain.M, w *chain.TraceWriter) bool {
 			// member of a multi-message transaction that failed as a whole (chain.BundlePct):
 			// whatever it did was rolled back; the specification knows no such event and
 			// treats it as a rejection without effect
-			ev["name"] = "TxFailed"
+			ev["_orig"], ev["name"] = ev["name"], "TxFailed"
 		}
 		ev["ok"], ev["panic"] = r.OK, r.Panic
 		st := r.State
@@ -320,16 +595,79 @@ func (e *nftEnv) runBlock(pending []chain.M, w *chain.TraceWriter) bool {
 			st = res.BeginState
 		}
 		w.Write(ev, st)
-		e.last = st.(chain.M)
+		if m, ok := st.(chain.M); ok {
+			e.last = m
+		}
 	}
 	w.Write(nftEvent("EndBlock", "", "", "", ""), res.EndState)
-	e.last = res.EndState.(chain.M)
+	if m, ok := res.EndState.(chain.M); ok {
+		e.last = m
+	}
 	return true
 }
 
 func (e *nftEnv) start(w *chain.TraceWriter) {
 	e.last = e.project(e.c.Ctx()).(chain.M)
 	w.Write(nftEvent("Init", "", "", "", ""), e.last)
+}
+
+// lenient readers of the projected state (a broken tree may produce anything)
+func sub(m chain.M, k string) chain.M {
+	if v, ok := m[k].(chain.M); ok {
+		return v
+	}
+	return chain.M{}
+}
+
+func str(m chain.M, k string) string {
+	s, _ := m[k].(string)
+	return s
+}
+
+// epilogue closes a history from what the REAL chain holds (the raw store, not what the
+// specification expected): every token record - up to a bound - is transferred by the
+// address under its owner key to the next user, who burns it; every class is handed over
+// by its recorded creator.  Whatever the code wrongly accepted before is thereby followed
+// up by the rightful (in the chain's own view) actors and judged by the clauses.
+func (e *nftEnv) epilogue(fl *drv.Flags, w *chain.TraceWriter) {
+	if fl.CfgInt("epilogue", 1) == 0 {
+		return
+	}
+	next := func(u string) string {
+		for i, x := range e.users {
+			if x == u {
+				return e.users[(i+1)%len(e.users)]
+			}
+		}
+		return e.users[0]
+	}
+	tok := sub(sub(e.last, "raw"), "tok")
+	var moves, burns, hands []chain.M
+	n := 0
+	for _, c := range chain.SortedKeys(tok) {
+		tm := sub(tok, c)
+		for _, id := range chain.SortedKeys(tm) {
+			owner := str(tm, id)
+			if n >= 6 || !e.canSign(owner) {
+				continue
+			}
+			n++
+			moves = append(moves, nftEvent("TransferNFT", owner, c, id, next(owner)))
+			burns = append(burns, nftEvent("BurnNFT", next(owner), c, id, ""))
+		}
+	}
+	cls := sub(e.last, "cls")
+	for i, c := range chain.SortedKeys(cls) {
+		creator := str(sub(cls, c), "creator")
+		if i < 4 && e.canSign(creator) {
+			hands = append(hands, nftEvent("TransferDenom", creator, c, "", next(creator)))
+		}
+	}
+	for _, blk := range [][]chain.M{moves, append(burns, hands...)} {
+		if len(blk) > 0 {
+			e.runBlock(blk, w)
+		}
+	}
 }
 
 // nftRun executes one abstract behaviour on a fresh chain.  EndBlock events in
@@ -366,6 +704,7 @@ func nftRun(fl *drv.Flags, beh []chain.M, w *chain.TraceWriter) {
 	if len(pending) > 0 {
 		e.runBlock(pending, w)
 	}
+	e.epilogue(fl, w)
 }
 
 func nftDriver(mode string, fl *drv.Flags) error {
@@ -385,114 +724,4 @@ func nftDriver(mode string, fl *drv.Flags) error {
 		return fmt.Errorf("unknown mode %q", mode)
 	}
 	return nil
-}
-
-// nftRandom runs one random history.  Events are generated block by block from
-// the last observed state: entitled actors most of the time, strangers often,
-// transfer to self, burn and re-mint, handover then mint, every flag
-// combination, prefix-related ids, sentinel / empty / changed metadata.
-func nftRandom(fl *drv.Flags, rng *rand.Rand, w *chain.TraceWriter) {
-	classPool := []string{"cla", "clab", "cla/x", "clb"}
-	idPool := []string{"tka", "tkab", "tk/a", "tkb", "cla"}
-	e := newNftEnv(fl, classPool, idPool, 0)
-	e.start(w)
-	// field-specific values (a mix-up of two fields is visible), "" and one value
-	// shared by all fields
-	vals := map[string][]string{"n": {"na", "nb", "", "x"}, "u": {"ua", "ub", "", "x"},
-		"h": {"ha", "hb", "", "x"}, "d": {"da", "db", "", "x"}}
-	pick := func(l []string) string { return l[rng.Intn(len(l))] }
-	metaArg := func(ev chain.M, pKeep int, allowKeepData bool) {
-		for _, f := range []string{"n", "u", "h", "d"} {
-			if rng.Intn(100) < pKeep && (f != "d" || allowKeepData) {
-				ev[f] = keep
-			} else {
-				ev[f] = pick(vals[f])
-			}
-		}
-	}
-	flagSeq := rng.Perm(4)
-	issued := 0
-	for b := 0; b < fl.Len; b++ {
-		var pending []chain.M
-		cls := e.last["cls"].(chain.M)
-		nfts := e.last["nft"].(chain.M)
-		have := chain.SortedKeys(cls)
-		type tk struct{ c, id, owner string }
-		var toks []tk
-		for _, c := range have {
-			tm := nfts[c].(chain.M)
-			for _, id := range chain.SortedKeys(tm) {
-				toks = append(toks, tk{c, id, tm[id].(chain.M)["owner"].(string)})
-			}
-		}
-		n := 1 + rng.Intn(4)
-		for j := 0; j < n; j++ {
-			u := pick(e.users)
-			x := rng.Intn(100)
-			switch {
-			case x < 8 || len(have) == 0:
-				ev := nftEvent("IssueDenom", u, pick(classPool), "", "")
-				fb := flagSeq[issued%4]
-				issued++
-				ev["mintR"], ev["updateR"] = fb&1 == 1, fb&2 == 2
-				ev["cmeta"] = pick([]string{"m", "k"})
-				pending = append(pending, ev)
-			case x < 38:
-				c := pick(have)
-				who := u
-				if rng.Intn(3) > 0 {
-					who = cls[c].(chain.M)["creator"].(string)
-				}
-				ev := nftEvent("MintNFT", who, c, pick(idPool), pick(e.users))
-				metaArg(ev, 5, rng.Intn(20) == 0)
-				pending = append(pending, ev)
-			case len(toks) == 0:
-				continue
-			case x < 55:
-				t := toks[rng.Intn(len(toks))]
-				who := t.owner
-				if rng.Intn(3) == 0 {
-					who = u
-				}
-				ev := nftEvent("EditNFT", who, t.c, t.id, "")
-				metaArg(ev, 50, true)
-				pending = append(pending, ev)
-			case x < 78:
-				t := toks[rng.Intn(len(toks))]
-				who := t.owner
-				if rng.Intn(3) == 0 {
-					who = u
-				}
-				to := pick(e.users)
-				if rng.Intn(6) == 0 {
-					to = who
-				}
-				ev := nftEvent("TransferNFT", who, t.c, t.id, to)
-				if rng.Intn(2) == 0 {
-					metaArg(ev, 60, true)
-				}
-				pending = append(pending, ev)
-			case x < 90:
-				t := toks[rng.Intn(len(toks))]
-				who := t.owner
-				if rng.Intn(3) == 0 {
-					who = u
-				}
-				pending = append(pending, nftEvent("BurnNFT", who, t.c, t.id, ""))
-			default:
-				c := pick(have)
-				who := cls[c].(chain.M)["creator"].(string)
-				if rng.Intn(3) == 0 {
-					who = u
-				}
-				pending = append(pending, nftEvent("TransferDenom", who, c, "", pick(e.users)))
-			}
-		}
-		// occasionally aim at something that does not exist
-		if rng.Intn(6) == 0 {
-			pending = append(pending, nftEvent(pick([]string{"BurnNFT", "EditNFT", "TransferNFT"}), pick(e.users),
-				pick(classPool), pick(idPool), pick(e.users)))
-		}
-		e.runBlock(pending, w)
-	}
 }
